@@ -1046,6 +1046,13 @@ class Generator:
         if not cands:
             return None
         c = self.rng.choice(cands)
+        # generator exclusion (known finding KF-C10-null-index-repartition; dask documents nulls in the index as
+        # "not entirely supported"): never move a column that contains nulls into the index
+        try:
+            if bool(self.pool[m.id][c].isna().any().compute()):
+                return None
+        except Exception:
+            return None
         op = {"op": "set_index", "src": m.id, "column": c, "drop": self.rng.random() < 0.8}
         self._kn(op, ["shuffle_method", "sort_npartitions", "upsample", "max_branch"])
         return self.try_add(op, "open", "defined", self.next_id, "set")
